@@ -461,6 +461,10 @@ func (damageEngine) Execute(p *Plan) *RunResult {
 				res.V = violf("recovery-allocates-by-claimed-length", "%s: the recovering Open allocated %d bytes, segment files hold %d bytes (bound %d)", c.desc, alloc, totalSeg, bound)
 				return res
 			}
+			if env.FS.Stats.SliceOverAlloc > 64<<10 {
+				res.V = violf("recovery-allocates-by-claimed-length", "%s: the recovering Open asked the file system for views reaching %d bytes past the end of a file (fs.OS allocates them)", c.desc, env.FS.Stats.SliceOverAlloc)
+				return res
+			}
 			if env.FS.Stats.MaxReadOver > 64<<10 {
 				res.V = violf("recovery-reads-by-claimed-length", "%s: a read request exceeded the bytes remaining in the file by %d", c.desc, env.FS.Stats.MaxReadOver)
 				return res
